@@ -255,6 +255,46 @@ def run(chk):
         if got.get(0) != ('raise', 'TimeoutError') or got.get(1, ('?',))[0] != 'ok' or got.get(2, ('?',))[0] != 'ok':
             chk.violation('timeout_interrupts_only_that_task', {'scenario': sc}, {'outcomes': got}, 'the overrunning task fails with TimeoutError, the tasks behind it complete',
                           input_class='replacement_timeout')
+    # one round of the library's own _timeout_handler on a snapshot (real comms stamps, real job cache, a clock that stands still) vs
+    # Mpire.TimeoutScan.round: who is signalled, which jobs are failed by whose timeout, which job the exception flag names, whether the
+    # handler ends
+    from harness.pure import tscan
+    from harness.common import Driver as _Driver
+    tcases = [tscan.gen(rng) for _ in range(600 if chk.tier == 'quick' else 8000)]
+    tlines = [tscan.line(c) for c in tcases]
+    for c, line, m in zip(tcases, tlines, _Driver().run(tlines)):
+        try:
+            i = tscan.run(*c)
+        except Exception as e:      # noqa
+            i = 'error %s: %s' % (type(e).__name__, e)
+        chk.count('_timeout_handler, one round on a snapshot vs Mpire.TimeoutScan.round', key=line, nontrivial='killed= ' not in m, sample={'line': line[:200], 'impl': i},
+                  workers=len(c[4]), ends='returned=1' in m, signalled=min(len([x for x in m.split('killed=')[1].split(' ')[0].split(',') if x]), 4))
+        if i == m:
+            continue
+        chk.mismatch('timeout handler round vs Mpire.TimeoutScan', {'line': line}, i, m)
+        if not i.startswith('ok '):
+            chk.violation('timeout_round', {'line': line}, i, 'the handler runs one round', input_class='tscan_error')
+            continue
+        # the property on what the real handler did: every worker whose function overran its limit is signalled in this round unless the
+        # handler ended at an earlier worker; nobody else is
+        now, init_to, exit_to, jobs, workers = c
+        jd = {str(j): (m_, t) for j, m_, t in jobs}
+        over, ender = [], None
+        for w, (working, ti, tt, te) in enumerate(workers):
+            lim, st = (init_to, ti) if working == 'I' else (exit_to, te) if working == 'E' else (jd.get(working, (None, None))[1], tt)
+            if lim is not None and st is not None and st + lim <= now:
+                over.append(w)
+                if ender is None and (working in ('I', 'E') or jd[working][0]):
+                    ender = w
+        if init_to is None and exit_to is None and all(t is None for _, _, t in jobs):
+            over, ender = [], None
+        want = [w for w in over if ender is None or w <= ender]
+        got = [int(x) for x in i.split('killed=')[1].split(' ')[0].split(',') if x]
+        if [w for w in want if w not in got]:
+            chk.violation('timeout_fires', {'line': line}, {'signalled': got, 'overrunning': want}, 'every worker that overruns is dealt with in the same round, however many there are',
+                          input_class='tscan_missed')
+        elif [w for w in got if w not in want]:
+            chk.violation('no_false_timeout', {'line': line}, {'signalled': got, 'overrunning': want}, 'only workers that overrun are signalled', input_class='tscan_false')
     # "independent of how many workers are blocked", apply half: every worker of a larger pool overruns at the same moment; each
     # task's TimeoutError (its error callback) arrives within its own limit + one scan period + slack, the last one like the first
     many = []
